@@ -127,11 +127,16 @@ Out(c) ==
       [] c.op = "sliding" ->
            [i \in DOMAIN X |-> LET s == X[i][1] pd == Padded(s, p.w \div 2) IN
                                [t \in 1..Len(s) |-> Cell([k \in 1..p.w |-> pd[t + k - 1]])]]
-      [] c.op = "interval_features" ->                       \* p.iv: fitted intervals [a, b); mean.., std^2.., slope..
+      [] c.op = "interval_features" ->                       \* p.iv: fitted intervals [a, b); mean.., std^2.., slope.., range..
            [i \in DOMAIN X |->
               << [f \in DOMAIN p.iv |-> P2(MeanOf(Slice(X[i][1], p.iv[f][1], p.iv[f][2])))]
                  \o [f \in DOMAIN p.iv |-> P2(VarOf(Slice(X[i][1], p.iv[f][1], p.iv[f][2])))]
-                 \o [f \in DOMAIN p.iv |-> P2(SlopeOf(Slice(X[i][1], p.iv[f][1], p.iv[f][2])))] >>]
+                 \o [f \in DOMAIN p.iv |-> P2(SlopeOf(Slice(X[i][1], p.iv[f][1], p.iv[f][2])))]
+                 \* a user-supplied feature function without an axis argument: the range (max - min) of the interval
+                 \o [f \in DOMAIN p.iv |-> LET sl == Slice(X[i][1], p.iv[f][1], p.iv[f][2])
+                                               hi == CHOOSE v \in {sl[t] : t \in DOMAIN sl} : \A t \in DOMAIN sl : sl[t] <= v
+                                               lo == CHOOSE v \in {sl[t] : t \in DOMAIN sl} : \A t \in DOMAIN sl : sl[t] >= v
+                                           IN R(hi - lo)] >>]
       [] c.op = "row_mean" -> MapCells(X, LAMBDA s : << P2(MeanOf(s)) >>)
       [] c.op = "impute" -> << << ImputeSeries(X[1][1], p.method, p.const) >> >>
       [] c.op = "acf" -> << << AcfSeries(X[1][1], p.k, p.adj) >> >>
